@@ -36,8 +36,9 @@ def shorthand_ok(n):
 
 
 class Renderer:
-    def __init__(self, r, *, blanks=0.25, alias=False, tokens=None, plain=False):
+    def __init__(self, r, *, blanks=0.25, alias=False, tokens=None, plain=False, tight=0.0):
         self.r = r
+        self.tight = tight  # share of compound operators written without a blank before them (where no blank is needed)
         self.blanks = 0.0 if plain else blanks
         self.alias = alias  # use documented non-standard aliases where possible
         self.plain = plain  # canonical-ish: no optional blanks, no exotic escapes
@@ -270,7 +271,12 @@ class Renderer:
         out = self.top(c[0])
         for op, q in c[1:]:
             tok = self.t["union"] if op == "|" else self.t["inter"]
-            out += " " + tok + " " + self.top(q)
+            # a blank before the operator is only needed when the operator's first character could continue what stands
+            # before it (a member-name shorthand swallows letters, digits, '_', '-' and everything beyond ASCII)
+            x = self.r.random() if self.tight else 1.0
+            name_char = tok[0].isalnum() or tok[0] in "_-" or ord(tok[0]) >= 0x80
+            ends_ok = out[-1:] in ("]", "*") or out[-1:].isalnum() or out[-1:] == "_"
+            out += ("" if (x < self.tight and not name_char and ends_ok) else " ") + tok + " " + self.top(q)
         return out
 
 
